@@ -187,8 +187,13 @@ func (d *disconnectHandler) handleDisconnect() {
 
 // handleGracePeriodExpired is called when grace period expires
 func (d *disconnectHandler) handleGracePeriodExpired() {
+	// d.mu only guards the handler's own fields. It must not be held while calling
+	// into the election: becomeFollower takes e.mu, and Stop/StopWithContext hold
+	// e.mu when they take d.mu (disconnectHandler.stop) - the opposite order, which
+	// deadlocked a Stop issued at the moment the grace period expired.
 	d.mu.Lock()
-	defer d.mu.Unlock()
+	disconnectedAt := d.disconnectedAt
+	d.mu.Unlock()
 
 	if d.election.connectionMonitor != nil {
 		// A closed connection never comes back: like "still disconnected" it must
@@ -206,7 +211,7 @@ func (d *disconnectHandler) handleGracePeriodExpired() {
 	// Still disconnected, demote if still leader
 	if d.election.isLeader.Load() {
 		log := d.election.getLogger()
-		disconnectedDuration := time.Since(d.disconnectedAt)
+		disconnectedDuration := time.Since(disconnectedAt)
 		log.Error("demoting_due_to_connection_loss",
 			append(d.election.logWithContext(d.election.ctx),
 				zap.Duration("disconnected_duration", disconnectedDuration),
